@@ -216,7 +216,23 @@ pub fn run_c(dir: &str) {
                 // every oplog record (raw), decoded through the restarted node's maps
                 let idk = st.dbs.id_keys_map.read().unwrap();
                 let idn = st.dbs.id_name_db_map.read().unwrap();
-                let raw = std::fs::read(Oplog::get_op_log_file_name()).unwrap_or_default();
+                // the rotated files of the log (oldest first), then the current one
+                let mut raw: Vec<u8> = Vec::new();
+                let mut rotated: Vec<(u64, std::path::PathBuf)> = Vec::new();
+                if let Ok(rd) = std::fs::read_dir(format!("{}/oplog", dir)) {
+                    for e in rd.flatten() {
+                        let name = e.file_name().into_string().unwrap_or_default();
+                        if name.starts_with("oplog-nun-") && name.ends_with(".op") {
+                            let id: u64 = name["oplog-nun-".len()..name.len() - 3].parse().unwrap_or(0);
+                            rotated.push((id, e.path()));
+                        }
+                    }
+                }
+                rotated.sort();
+                for (_, p) in &rotated {
+                    raw.extend(std::fs::read(p).unwrap_or_default());
+                }
+                raw.extend(std::fs::read(Oplog::get_op_log_file_name()).unwrap_or_default());
                 let mut recs: Vec<String> = Vec::new();
                 let mut last: u64 = 0;
                 for ch in raw.chunks(25) {
